@@ -526,6 +526,7 @@ class Sym(Interp):
         nfacts = len(self.facts)
         order = self._order
         # pass 1: which names does the body rebind?
+        saved_attrs = dict(ctx.self_obj.attrs) if isinstance(ctx.self_obj, ObjV) else None
         probe = dict(env)
         probe["$loops"] = env.get("$loops", ()) + (lid,)
         ctx.loops.append({"breaks": [], "conts": []})
@@ -552,6 +553,9 @@ class Sym(Interp):
         changed -= tnames
         del self.facts[nfacts:]
         self._order = order
+        if saved_attrs is not None:
+            ctx.self_obj.attrs.clear()
+            ctx.self_obj.attrs.update(saved_attrs)
         # pass 2: loop-carried names become mu symbols
         cur = dict(env)
         cur["$loops"] = env.get("$loops", ()) + (lid,)
